@@ -247,7 +247,10 @@ func writeGroupIni(cmd *Command, group *Group, namespace string, writer io.Write
 		}
 
 		if comments && len(option.Description) != 0 {
-			fmt.Fprintf(writer, "; %s\n", option.Description)
+			// Every line of the description is a comment of its own
+			for _, line := range strings.Split(option.Description, "\n") {
+				fmt.Fprintf(writer, "; %s\n", line)
+			}
 		}
 
 		oname := optionIniName(option)
